@@ -571,6 +571,9 @@ class Check:
             rp = s.write_replay(h, ob, reproduced, why, order)
             s.violations.append({'harness': base, 'id': ob['id'], 'leaf': ob['leaf'], 'replay': rp, 'why': why, 'key': key})
             log('  %s: COUNTEREXAMPLE %s leaf %d reproduces natively (%s) -> %s' % (base, ob['id'], ob['leaf'], why, rp))
+        elif any(kp == s.prop and kh == base and ka == ob['id'].split('#')[0] for kp, kh, ka, _ in s.load_known()):
+            # a listed known finding whose solver model did not replay this time (rounding at a boundary): still that finding
+            s.violations.append({'harness': base, 'id': ob['id'], 'leaf': ob['leaf'], 'replay': None, 'why': 'solver counterexample (not replayed: %s)' % why, 'key': key})
         else:
             msg = 'model for %s leaf %d does not reproduce natively (%s)' % (ob['id'], ob['leaf'], why)
             if is_stretch or ob.get('lemma'):
